@@ -191,27 +191,17 @@ type Assumption struct {
 // c is assumed false, the false edge when c is assumed true (also through !c and the
 // conjuncts/disjuncts that decide the condition).
 func edgeAllowed(from, to *cfg.Block, assume []Assumption) bool {
-	if len(assume) == 0 || len(from.Nodes) == 0 {
+	if len(assume) == 0 || len(from.Nodes) == 0 || len(from.Succs) != 2 {
 		return true
 	}
-	is, ok := to.Stmt.(*ast.IfStmt)
-	if !ok {
-		return true
-	}
+	// a block with two successors ends in a condition: Succs[0] is its true edge, Succs[1] its
+	// false edge (go/cfg decomposes && and || into such blocks)
 	last, ok := from.Nodes[len(from.Nodes)-1].(ast.Expr)
-	if !ok || last != is.Cond {
+	if !ok || from.Succs[0] == from.Succs[1] {
 		return true
 	}
-	var edge bool
-	switch to.Kind {
-	case cfg.KindIfThen:
-		edge = true
-	case cfg.KindIfElse, cfg.KindIfDone:
-		edge = false
-	default:
-		return true
-	}
-	if v, known := evalCond(is.Cond, assume); known && v != edge {
+	edge := to == from.Succs[0]
+	if v, known := evalCond(last, assume); known && v != edge {
 		return false
 	}
 	return true
